@@ -116,6 +116,13 @@ func lcShort(v []byte) string {
 	return strings.ToLower(t)
 }
 
+// encoding/xml leaves the prefix in Name.Space when no declaration for it is in scope; a namespace
+// name is a URI reference and in practice contains ':' or '/', a prefix cannot contain ':'.
+// Such a document is not namespace-well-formed (Namespaces in XML 1.0, section 5).
+func unbound(space string) bool {
+	return space != "" && !strings.ContainsAny(space, ":/")
+}
+
 // projectXML reads a standalone document.  wf=false when it is not well-formed (Strict decoder:
 // mismatched tags, undefined entities, illegal characters, `<` in attribute values ...).
 func projectXML(src []byte) (evs []Ev, ds [][]byte, wf bool, why string) {
@@ -154,6 +161,9 @@ func projectXML(src []byte) (evs []Ev, ds [][]byte, wf bool, why string) {
 				e.NS = "none"
 			default:
 				e.NS = "foreign"
+				if unbound(t.Name.Space) {
+					return nil, nil, false, "unbound namespace prefix " + t.Name.Space
+				}
 			}
 			for _, a := range t.Attr {
 				at := Attr{Name: a.Name.Local, Val: lib.Bytes(a.Value), LC: lcShort([]byte(a.Value))}
@@ -168,6 +178,9 @@ func projectXML(src []byte) (evs []Ev, ds [][]byte, wf bool, why string) {
 					at.NS = "xlink"
 				default:
 					at.NS = "foreign"
+					if unbound(a.Name.Space) {
+						return nil, nil, false, "unbound namespace prefix " + a.Name.Space
+					}
 				}
 				if at.NS == "" && at.Name == "d" {
 					ds = append(ds, []byte(a.Value))
